@@ -25,7 +25,7 @@ for name in names:
         results = meta.get("detection", {})
         for prop in meta["breaks"]:
             t0 = time.time()
-            env = dict(os.environ, VERIF_REPO=wt, VERIF_JOBS=jobs)
+            env = dict(os.environ, VERIF_REPO=wt, VERIF_JOBS=jobs, VERIF_FIRST_ONLY="1")
             p = subprocess.run([os.path.join(V, "check"), prop, "--tier", tier, "--no-evidence"], cwd=V, env=env,
                                capture_output=True, text=True)
             out = p.stdout + p.stderr
